@@ -38,7 +38,7 @@ def certify(lps):
     {"status": optimal|infeasible|unbounded, "value": Fraction|None, "x": [...], "y": [...], "rc": [...]}; raises if the Lean
     checker rejects a certificate (harness error, never a verdict)."""
     results = [exact_lp.solve(*lp) for lp in lps]
-    out = common.run_driver("lp", [cert_line(lp, r) for lp, r in zip(lps, results)])
+    out = common.run_driver_persistent("lp", [cert_line(lp, r) for lp, r in zip(lps, results)])
     certified = []
     for lp, r, line in zip(lps, results, out):
         v = json.loads(line)
